@@ -117,7 +117,13 @@ def finish(run, args):
             reproduced = bool(native_res and native_res.get("violates"))
             fragile = (not sat) and baseline is not None and any(
                 b in ("z3", "cvc5") for b in (baseline.get("backends", {}).get(name) or []))
-            if fragile and not reproduced:
+            changed_repr = sorted(getattr(run.E, "auto_fields", ()))
+            if changed_repr and not reproduced:
+                # the class has fields the contracts do not know (its representation was changed): the abstraction in the
+                # contract no longer describes the object, so a failed proof without a natively reproduced input is not
+                # evidence of a defect
+                undecided.append((name, "representation changed (%s): contract needs updating; no failing input reproduced" % "; ".join(changed_repr)[:160]))
+            elif fragile and not reproduced:
                 # on the reference tree this obligation needed the quantified stage (solver-time dependent): a
                 # candidate model without native confirmation is reported as undecided, not as a violation
                 undecided.append((name, "candidate model on an obligation that needed the quantified stage at baseline"))
